@@ -249,6 +249,7 @@ def generate(rng, tier):
                    "p": rng.choice([1.0, 0.5, 0.2])},
         # equal clauses are passed as ONE shared list object (`[clause] * 2` style) or as tuples
         "share": rng.choice([False, False, True]), "tuples": rng.random() < 0.2, "omit_defaults": rng.random() < 0.5,
+        "iterables": rng.choice([None, None, None, None, "rows", "outer"]),
     }
     return case
 
@@ -357,6 +358,11 @@ def step_limit(case):
 
 
 def build_clauses(case):
+    it = case.get("iterables")
+    if it == "rows":  # each clause a one-shot iterator (e.g. rows produced by a DIMACS reader)
+        return [iter(list(c)) for c in case["clauses"]]
+    if it == "outer":  # the formula itself a generator of clauses
+        return (list(c) for c in case["clauses"])
     if case.get("tuples"):
         return [tuple(c) for c in case["clauses"]]
     if not case.get("share"):
@@ -388,7 +394,10 @@ def run_once(case, use_hooks=True, decide=None):
     exceeded = False
     try:
         with budget.steps(step_limit(case)) as b:
-            kw = {"assumptions": (tuple(case["assumptions"]) if case.get("tuples") else list(case["assumptions"])) or None, "max_conflicts": case["max_conflicts"],
+            asm = (tuple(case["assumptions"]) if case.get("tuples") else list(case["assumptions"])) or None
+            if asm and case.get("iterables"):
+                asm = (a for a in list(asm))  # a one-shot iterable of assumption literals
+            kw = {"assumptions": asm, "max_conflicts": case["max_conflicts"],
                   "max_restarts": case["max_restarts"], "solution_limit": case["solution_limit"], "luby_factor": case["luby_factor"]}
             if case.get("omit_defaults"):  # arguments that equal the documented defaults are left out: the defaults themselves run
                 for k, d in (("assumptions", None), ("max_conflicts", 100_000), ("max_restarts", 10_000), ("solution_limit", 1),
@@ -551,6 +560,8 @@ def shrink(case):
         yield shr.with_path(case, ("share",), False)
     if case.get("tuples"):
         yield shr.with_path(case, ("tuples",), False)
+    if case.get("iterables"):
+        yield shr.with_path(case, ("iterables",), None)
     if case.get("gc", 2000) != 2000:
         yield shr.with_path(case, ("gc",), 2000)
     yield from shr.list_shrinks(case, ("clauses",), 1)
